@@ -344,7 +344,7 @@ theorem inv_exUnion_left {t1 t2 : TSeq} {w : Bytes} (h : t1.Inv w) : (exUnion t1
   split
   · unfold TSeq.Inv
     apply Seq.inv_union_left
-    exact Seq.inv_and (Seq.inv_dedup (Seq.inv_keepFirstBytes 4 h))
+    exact Seq.inv_and (Seq.inv_dedup (Seq.inv_keepFirstBytes _ h))
   · unfold TSeq.Inv
     exact Seq.inv_union_left (Seq.inv_and h)
 
@@ -357,7 +357,7 @@ theorem inv_exUnion_right {t1 t2 : TSeq} {w : Bytes} (h : t2.Inv w) : (exUnion t
     apply Seq.inv_union_right
     split
     · trivial
-    · exact Seq.inv_and' (Seq.inv_dedup (Seq.inv_keepFirstBytes 4 h))
+    · exact Seq.inv_and' (Seq.inv_dedup (Seq.inv_keepFirstBytes _ h))
   · unfold TSeq.Inv
     exact Seq.inv_union_right (Seq.inv_and' h)
 
